@@ -372,8 +372,16 @@ def tie_cases(ctx: Ctx, cases: list[dict], optlist_of) -> list:
             jobs.append((case, opts, lits))
             case["facts"][L.opts_str(opts)] = facts(case["proto"], opts)
     outs = ctx.drv.ask(lines)
+    # fragment of export_roundtrip_partial: predicted re-read graph (only ModelProtos, rename=0, inline_const=0)
+    slines, sidx = [], []
+    for j, (case, opts, lits) in enumerate(jobs):
+        if case["kind"] == "M" and not opts["rename"] and not opts["inline_const"]:
+            slines.append("straight" + lines[j][len("export"):])
+            sidx.append(j)
+    souts = dict(zip(sidx, ctx.drv.ask(slines))) if slines else {}
     res = []
-    for (case, opts, lits), mres in zip(jobs, outs):
+    for j, ((case, opts, lits), mres) in enumerate(zip(jobs, outs)):
+        case.setdefault("straight", {})[L.opts_str(opts)] = souts.get(j, "0")
         src, exc = real_export(case, opts)
         ctx.stats["exports"] += 1
         mprog = None if mres.startswith("ERR:") or mres == "bad-op" else mres.split(" ; ")
@@ -474,6 +482,28 @@ def _oracle(ctx, case, opts, src, exc, mprog, mres):
         except BaseException as e:  # noqa: BLE001
             return fail(ctx, case, opts, "to_model", f"to_model_proto raised {type(e).__name__}: {str(e)[:200]}", mprog, mres)
         st["converted_back"] += 1
+        pred = case.get("straight", {}).get(L.opts_str(opts), "0")
+        if pred == "bad-op":
+            raise core.Infra("driver could not parse a straight line")
+        if pred.startswith("1 ; ") and not case["facts"][L.opts_str(opts)]["collide"]:
+            # the model is in the fragment of export_roundtrip_partial: the real converter must have read back
+            # exactly progToGraph (exportStraight g) (names included)
+            st["fragment_cases"] += 1
+            parts = pred.split(" ; ")
+            want_nodes = []
+            for t in parts[3:]:
+                op, dom, ins, outs_, ats = t.split("|")
+                want_nodes.append((op, dom, ins, outs_, ",".join(sorted(x for x in ats.split(",") if x))))
+            got_nodes = [
+                (n.op_type, n.domain, ",".join(n.input), ",".join(n.output), ",".join(sorted(a.name for a in n.attribute)))
+                for n in m2.graph.node
+            ]
+            got = (",".join(i.name for i in m2.graph.input), ",".join(o.name for o in m2.graph.output), got_nodes)
+            want = (parts[1], parts[2], want_nodes)
+            if got != want:
+                ctx.tie_broken.append((case, opts, f"progToGraph(exportStraight) {want} || real converter read back {got}"))
+            else:
+                st["fragment_reread_ok"] += 1
         # ---- same graph inputs and outputs
         if case["kind"] == "M":
             want_in = [(py_norm(i.name), L.type_sig(i)) for i in m1.graph.input]
